@@ -3,3 +3,4 @@ import LyModel.Props.C06
 #print axioms LyModel.Props.C06.diff_self_empty
 #print axioms LyModel.Props.C06.apply_diff_partial
 #print axioms LyModel.Props.C06.apply_diff_fails
+#print axioms LyModel.Props.C06.apply_respects_obs
